@@ -6,7 +6,7 @@
    bounding box is yielded, nothing else is, each exactly once, in row-major order; together with
    X_contains_in_bbox (nothing outside the box is accepted) points() is exactly the set contains() accepts. *)
 From EG Require Import Base.Prelude Model.Geometry Model.Style Model.Circle Model.Ellipse Model.Styledrect
-  Proofs.Geometry Proofs.Scanline Proofs.Circle Proofs.Ellipse Proofs.Styledrect.
+  Proofs.Geometry Proofs.Scanline Proofs.Circle Proofs.Ellipse Proofs.Styledrect Proofs.Curvefacts Proofs.Circlefits.
 From Coq Require Import Sorting.Sorted.
 
 (* ---- Rectangle ---- *)
@@ -17,32 +17,58 @@ Proof. exact rect_points_spec. Qed.
 Theorem C05_rect_contains_in_bbox : forall r p, contains r p = true -> contains (rect_bbox r) p = true.
 Proof. exact rect_contains_in_bbox. Qed.
 
+(* ---- machine ranges ----
+   probe_ok c p  := every intermediate result of Circle::contains(p) fits the Rust type it is computed in (the exact
+                    condition: outside it a build with overflow checks panics and a release build wraps; e.g.
+                    Circle::new((0,0),11).contains((32773,5)) wraps to `true`).  For d < 2^16 this is
+                    4*dist^2 <= i32::MAX, i.e. p within about 23170 px of the centre (C05_circle_probe_ok_exact).
+   circle_mok c  := top-left within +-2^29 and d <= 2^15: every probe points() / draw() make themselves is probe_ok.
+   eprobe_ok / ellipse_mok: the same for Ellipse::contains (i32 differences, u64 products); w*h <= 2^31.
+   Under these hypotheses the unbounded model used below IS the machine computation (C05_*_machine_agrees). *)
+Theorem C05_circle_probe_ok_exact : forall c p,
+  circle_ok c -> c_d c <= 65535 -> (probe_ok c p <-> cdist2m c p <= i32_max).
+Proof. exact probe_ok_iff. Qed.
+
+Theorem C05_circle_machine_agrees : forall c p,
+  probe_ok c p -> circle_contains_checked c p = Some (circle_contains c p).
+Proof. exact circle_checked_agrees. Qed.
+
+Theorem C05_circle_box_probes_ok : forall c p, circle_mok c -> In p (box_points (circle_bbox c)) -> probe_ok c p.
+Proof. exact circle_points_probes_ok. Qed.
+
+Theorem C05_ellipse_machine_agrees : forall e p,
+  eprobe_ok e p -> ellipse_contains_checked e p = Some (ellipse_contains e p).
+Proof. exact ellipse_checked_agrees. Qed.
+
+Theorem C05_ellipse_box_probes_ok : forall e p, ellipse_mok e -> In p (box_points (ellipse_bbox e)) -> eprobe_ok e p.
+Proof. exact ellipse_points_probes_ok. Qed.
+
 (* ---- Circle: scanline iterator as written (first hit per row, mirrored right end, a row without hit
         ends the iteration) ---- *)
 Theorem C05_circle_points_spec : forall c,
-  circle_ok c -> circle_points c = filter (circle_contains c) (box_points (circle_bbox c)).
-Proof. exact circle_points_spec. Qed.
+  circle_mok c -> circle_points c = filter (circle_contains c) (box_points (circle_bbox c)).
+Proof. exact circle_points_spec_m. Qed.
 
 Theorem C05_circle_contains_in_bbox : forall c p,
-  circle_ok c -> circle_contains c p = true -> contains (circle_bbox c) p = true.
-Proof. exact circle_contains_in_bbox. Qed.
+  circle_mok c -> probe_ok c p -> circle_contains c p = true -> contains (circle_bbox c) p = true.
+Proof. exact circle_contains_in_bbox_m. Qed.
 
 Theorem C05_circle_points_iff_contains : forall c p,
-  circle_ok c -> (In p (circle_points c) <-> circle_contains c p = true).
-Proof. exact circle_points_in. Qed.
+  circle_mok c -> probe_ok c p -> (In p (circle_points c) <-> circle_contains c p = true).
+Proof. exact circle_points_in_m. Qed.
 
 (* ---- Ellipse: same iterator, rows without hit are skipped (repair 4fd6e1d), test in 64 bit (c18b215) ---- *)
 Theorem C05_ellipse_points_spec : forall e,
-  ellipse_ok e -> ellipse_points e = filter (ellipse_contains e) (box_points (ellipse_bbox e)).
-Proof. exact ellipse_points_spec. Qed.
+  ellipse_mok e -> ellipse_points e = filter (ellipse_contains e) (box_points (ellipse_bbox e)).
+Proof. exact ellipse_points_spec_m. Qed.
 
 Theorem C05_ellipse_contains_in_bbox : forall e p,
-  ellipse_ok e -> ellipse_contains e p = true -> contains (ellipse_bbox e) p = true.
-Proof. exact ellipse_contains_in_bbox. Qed.
+  ellipse_mok e -> eprobe_ok e p -> ellipse_contains e p = true -> contains (ellipse_bbox e) p = true.
+Proof. exact ellipse_contains_in_bbox_m. Qed.
 
 Theorem C05_ellipse_points_iff_contains : forall e p,
-  ellipse_ok e -> (In p (ellipse_points e) <-> ellipse_contains e p = true).
-Proof. exact ellipse_points_in. Qed.
+  ellipse_mok e -> eprobe_ok e p -> (In p (ellipse_points e) <-> ellipse_contains e p = true).
+Proof. exact ellipse_points_in_m. Qed.
 
 (* ---- what the filter form means, for any predicate: strictly row-major (hence each point once) ---- *)
 Theorem C05_filter_of_box_is_strictly_row_major : forall (f : point -> bool) r,
@@ -57,6 +83,8 @@ Proof. exact In_box_points. Qed.
 
 (* ---- non-vacuity: the hypotheses are satisfiable and the functions compute something ---- *)
 Example C05_circle_example :
+  circle_contains_checked (Circ (P 0 0) 11) (P 32773 5) = None /\
+  ellipse_contains_checked (Ell (P 0 0) (S 1001 500)) (P 536871412 250) = None /\ circle_contains_checked (Circ (P 0 0) 11) (P 23175 5) = Some false /\
   circle_ok (Circ (P (-2) 3) 3) /\
   circle_points (Circ (P (-2) 3) 3) = [P (-1) 3; P (-2) 4; P (-1) 4; P 0 4; P (-1) 5] /\
   ellipse_ok (Ell (P 0 0) (S 2 20)) /\
